@@ -61,4 +61,47 @@ theorem copyRegionUnchecked_eq (k ublen : Nat) :
     simp only [copyRegionUnchecked, appendUnchecked, ih, Nat.add_mul, Nat.one_mul]
     omega
 
+
+/-! ## cursor shape (`rfbSendCursorShape`, cursor.c)
+
+The image is written in the CLIENT's pixel format (`cbpp` bytes per pixel), so the size estimate
+that decides between "send the shape" and "send an empty cursor" must use the client's pixel size
+(seeded change C04-8 used the server's). -/
+
+def cursorMaskBytes (w h : Nat) : Nat := (w + 7) / 8 * h
+
+/-- the estimate: rectangle header + XCursor colours + mask + data -/
+def cursorEstimate (w h cbpp : Nat) (rich : Bool) : Nat :=
+  sz_rfbFramebufferUpdateRectHeader + 6 + cursorMaskBytes w h +
+    (if rich then w * h * cbpp else cursorMaskBytes w h)
+
+/-- bytes really appended for a shape that is sent -/
+def cursorWritten (w h cbpp : Nat) (rich : Bool) : Nat :=
+  sz_rfbFramebufferUpdateRectHeader + cursorMaskBytes w h +
+    (if rich then w * h * cbpp else 6 + cursorMaskBytes w h)
+
+/-- `ublen` after `rfbSendCursorShape`: too large ⇒ empty cursor (header only, flush-checked);
+otherwise flush if the estimate does not fit behind `ublen`, then append -/
+def cursorEmit (ublen w h cbpp : Nat) (rich : Bool) : Nat :=
+  if cursorEstimate w h cbpp rich > UPDATE_BUF_SIZE then
+    appendChecked ublen sz_rfbFramebufferUpdateRectHeader
+  else
+    let u := if ublen + cursorEstimate w h cbpp rich > UPDATE_BUF_SIZE then 0 else ublen
+    u + cursorWritten w h cbpp rich
+
+theorem cursorWritten_le_estimate (w h cbpp : Nat) (rich : Bool) :
+    cursorWritten w h cbpp rich ≤ cursorEstimate w h cbpp rich := by
+  unfold cursorWritten cursorEstimate
+  cases rich <;> simp <;> omega
+
+theorem cursorEmit_le (ublen w h cbpp : Nat) (rich : Bool) (hu : ublen ≤ UPDATE_BUF_SIZE) :
+    cursorEmit ublen w h cbpp rich ≤ UPDATE_BUF_SIZE := by
+  unfold cursorEmit
+  split
+  · exact appendChecked_le (by decide)
+  · rename_i hfit
+    have := cursorWritten_le_estimate w h cbpp rich
+    simp only []
+    split <;> omega
+
 end VncModel.Robust
